@@ -92,6 +92,13 @@ def generate(rng, tier):
             continue
         for na in [0, 1, 2, 3, 40]:
             yield emit(rng, form, nat_pattern(rng, na, "random"), 0)
+    # is_multiple_of_const(0): the documented divide-by-zero panic (explicit test in is_multiple_of_dword since
+    # /repo c27ca7f), dividends of every representation class and sign
+    for na in [0, 1, 2, 3, 4, 40]:
+        a = nat_pattern(rng, na, "random")
+        yield Case("u.ismultipleconst", [hx(a), "0"])
+        yield Case("i.ismultipleconst", [hx(a), "0"])
+        yield Case("i.ismultipleconst", [hx(-a), "0"])
 
     # ---- 2. divisors 2^k for every k in 0..192 (and neighbours), dividends of 0..3 more words
     for k in range(0, 193):
@@ -197,6 +204,26 @@ def generate(rng, tier):
                         nat_pattern(rng, max(nb - 1, 0), "random")])
         yield emit(rng, any_form(rng), a, b)
 
+    # ---- 9b. heap dividend with FEWER words than a heap divisor (the `len() >= len()` else-arms of div_ops::repr and
+    #          div_const: the dividend itself is the remainder — returned, or cloned into the divisor's buffer), every form
+    for i in range(200 if quick else 2000):
+        nb = rng.choice([4, 5, 6, 8, THR, THR + 1, 40])
+        na = rng.randrange(3, nb)
+        yield emit(rng, any_form(rng), nat_pattern(rng, na, rng.choice(["random", "ones", "highbit", "random"])) | (1 << (W * (na - 1))),
+                   divisor(rng, nb))
+
+    # ---- 9c. Burnikel-Ziegler inner boundaries: div_rem_in_place_small_quotient is entered with a quotient of exactly
+    #          THRESHOLD_SIMPLE / THRESHOLD_SIMPLE+1 words (`m <= THRESHOLD_SIMPLE` hand-over to Knuth D) — from same_len
+    #          (m = ceil(n/2): divisors of 2T-1 .. 2T+2 words, dividend >= 2n words) and from the final call of the block
+    #          loop (dividend of k*n + n + T (+1) words); and the block loop's own `m >= 2n`, `m > n` boundaries
+    for i in range(90 if quick else 3000):
+        nb = rng.choice([2 * THR - 1, 2 * THR, 2 * THR + 1, 2 * THR + 2, THR + 1, THR + 2, 40, 47])
+        na = rng.choice([2 * nb, 2 * nb + 1, 2 * nb - 1, nb + THR + 1, nb + THR + 2, 2 * nb + THR, 2 * nb + THR + 1,
+                         3 * nb, 3 * nb - 1])
+        b = divisor(rng, nb)
+        q = quotient(rng, na - nb) if rng.random() < 0.7 else nat_pattern(rng, na - nb, rng.choice(PATTERNS))
+        yield emit(rng, any_form(rng), q * b + remainder(rng, b), b)
+
     # ---- 10. fully random structured operands
     n10 = 500 if quick else 30000
     for i in range(n10):
@@ -226,6 +253,26 @@ def generate(rng, tier):
             yield emit(rng, any_form(rng), a, b)
 
 
+    # ---- 14. (E1) extreme machine-integer arguments: the Word parameter of ConstDivisor::from_word and the DoubleWord
+    #          parameter of ConstDivisor::from_dword / is_multiple_of_const — 0, 1, W-1, W, W+1, 2W, 2^31, 2^32-1, 2^32,
+    #          2^32+k, 2^63, 2^63+-k, 2^64-1-k, 2^64+k, 2^127+-k, 2^128-1-k (k < 131) — as divisors of dividends
+    #          q*d, q*d+-1 (inline and heap) through every ConstDivisor / is_multiple_of_const form
+    for c in extreme_cases(rng, quick):
+        yield c
+
+    # ---- 15. (E2) divisors of EVERY bit length 1..260 (2^(L-1), 2^L-1, random L-bit) with ties: a = q*b-1, q*b,
+    #          q*b+r (q's top word all ones; r in {1, b-1, ..}) through any form
+    for L in range(1, 261):
+        for b in {1 << (L - 1), (1 << L) - 1, rng.getrandbits(L) | (1 << (L - 1))}:
+            for rep in range(1 if quick else 3):
+                q = quotient(rng, rng.choice([1, 1, 2, 3, 4]))
+                yield emit(rng, any_form(rng), q * b + remainder(rng, b), b)
+                yield emit(rng, any_form(rng), max(q * b - 1, 0), b)
+                if L <= 128 and rep == 0:
+                    t = rng.choice([0, 1, b - 1])
+                    yield Case(rng.choice(["u.ismultipleconst", "i.ismultipleconst"]), [hx(q * b + t), hx(b)])
+                    yield Case("i.ismultipleconst", [hx(-(q * b + t)), hx(b)])
+
     # ---- 12. num-modular's dividers called directly (the mirror in Model/Int/NumModular.lean is tied to
     #          the crate here): reciprocals, 1by1/2by1/2by2/3by2/4by2 at W = 8, 16, 32, 64 on boundary and
     #          random normalized divisors and dividends with a_hi < d; exhaustive sweeps of the 8-bit instance
@@ -236,6 +283,40 @@ def generate(rng, tier):
     #          values (MIN, MIN+1, -1, 0, 1, 2, MAX-1, MAX, random); the 8-bit types exhaustively
     for c in prim_cases(rng, quick):
         yield c
+
+
+def extreme_words():
+    """extreme values of a Word / DoubleWord argument (ROUND4 addendum E1)"""
+    ks = list(range(0, 131))
+    one = [0, 1, W - 1, W, W + 1, 2 * W, 1 << 31, (1 << 32) - 1, 1 << 32, 1 << 63]
+    one += [(1 << 32) + k for k in ks[:130]]
+    one += [(1 << 63) + k for k in (1, 2, 3)] + [(1 << 63) - k for k in (1, 2, 3)]
+    one += [B - 1 - k for k in ks]
+    two = [B + k for k in ks[:40]] + [(1 << 127) + k for k in (0, 1, 2, 3)] + [(1 << 127) - k for k in (1, 2, 3)]
+    two += [(1 << 96) - 1, 1 << 96, (1 << 96) + 1, (1 << 2 * W) - B, (1 << 2 * W) - B - 1, (1 << 2 * W) - B + 1]
+    two += [(1 << 2 * W) - 1 - k for k in ks]
+    return one, two
+
+
+def extreme_cases(rng, quick):
+    one, two = extreme_words()
+    for d in one + two:
+        if d < B:
+            yield Case("cd.fromword", [hx(d)])
+        yield Case("cd.fromdword", [hx(d)])
+        if d == 0:
+            continue
+        reps = 1 if quick else 2
+        for _ in range(reps):
+            nq = rng.choice([0, 1, 1, 2, 3, 4])
+            q = quotient(rng, nq)
+            a = q * d + rng.choice([0, 0, 1, d - 1, rng.randrange(0, d)])
+            if rng.random() < 0.5:
+                yield Case("u.ismultipleconst", [hx(a), hx(d)])
+            else:
+                yield Case("i.ismultipleconst", [hx(signed(rng, a)), hx(d)])
+            yield emit(rng, rng.choice(FORMS_CU + FORMS_CI), a, d)
+        yield Case("i.ismultipleconst", [hx(-(quotient(rng, 2) * d)), hx(d)])
 
 
 PRIM_TYPES = [("u8", 8, False), ("u16", 16, False), ("u32", 32, False), ("u64", 64, False), ("u128", 128, False),
@@ -307,21 +388,30 @@ def nm_cases(rng, quick):
 
 
 USES_GEN = True
-GEN_PROPS = ["Dashu.Props.GenInt"]
-GEN_AUDIT = ["Dashu.Audit.GenInt"]
+GEN_PROPS = ["Dashu.Props.GenInt", "Dashu.Props.C02Plumbing"]
+GEN_AUDIT = ["Dashu.Audit.GenInt", "Dashu.Audit.C02Plumbing"]
 
 _C02 = ["truncating_conventions", "euclidean_conventions",
         "div_by_word_exact", "div_by_dword_exact", "rem_by_word_exact", "rem_by_dword_exact",
         "knuth_step_exact", "simple_div_rem_exact", "burnikel_ziegler_exact", "div_rem_large_exact",
         "ubig_div_rem_exact", "ubig_div_exact", "ubig_rem_exact", "ubig_division_identity",
-        "ubig_is_multiple_of_exact", "is_multiple_of_const_exact",
+        "ubig_is_multiple_of_exact", "is_multiple_of_const_exact", "is_multiple_of_const_zero",
         "ibig_div_exact", "ibig_rem_exact", "ibig_div_rem_exact", "ibig_div_euclid_exact",
         "ibig_rem_euclid_exact", "ibig_div_rem_euclid_exact", "ubig_ibig_rem_exact",
         "ubig_ibig_div_rem_exact", "ibig_is_multiple_of_exact",
         "const_divisor_new_value", "const_divisor_eq_plain", "const_divisor_ibig_exact",
         "nm_invert_word_exact", "nm_div_rem_2by1_exact", "nm_invert_double_word_exact",
         "nm_div_rem_3by2_exact", "nm_div_rem_4by2_exact", "nm_div_rem_1by1_2by2_exact", "nm_contracts_discharged",
-        "div_scratch_memory_suffices", "prim_zero_divisor", "prim_min_neg_one", "prim_kernels_exact"]
+        "div_scratch_memory_suffices", "prim_zero_divisor", "prim_min_neg_one", "prim_kernels_exact",
+        # Props/C02Plumbing.lean (same namespace): the operator-trait plumbing table regenerated from the macro-expanded
+        # source, and ConstDivisor::from_word / from_dword
+        "plumbing_table_routes", "plumbing_table_forwards", "plumbing_table_forms", "evalCore_exact",
+        "plumbing_every_impl_exact", "const_from_word_eq_new", "const_from_dword_eq_new", "const_from_dword_value",
+        "const_from_word_value", "repr_table_arms", "repr_table_complete", "expectedArms_eval", "repr_every_impl_eq_model",
+        "plumbing_division_identity", "ibig_is_multiple_of_const_exact",
+        "div_rem_in_place_choice", "bz_entry_guard", "bz_same_len_guard", "bz_small_quotient_guards",
+        "bz_small_quotient_recursive", "simple_entry_guards", "hw_estimate_guard", "hw_addback_guard",
+        "div_by_word_guards", "rem_by_word_dword_guards", "div_by_dword_guards", "unshifted_carry_guard"]
 _GEN = ["ibig_div_exact", "ibig_rem_exact", "ibig_divrem_exact", "ibig_div_euclid_exact",
         "ibig_rem_euclid_exact", "ibig_divrem_euclid_exact", "ubig_ibig_rem_exact", "ubig_ibig_divrem_exact"]
 THEOREMS = ["Dashu.Props.C02." + t for t in _C02] + ["Dashu.Props.GenInt." + t for t in _GEN]
@@ -336,22 +426,26 @@ REFINED = [
     "div::simple::div_rem_highest_word (Knuth D: estimate never too small / too large by <= 1, borrow>lhs_top correction, both debug_asserts)",
     "div::simple::div_rem_in_place (quotient carry, loop)",
     "div::divide_conquer::{div_rem_in_place, div_rem_in_place_same_len, div_rem_in_place_small_quotient} (Burnikel-Ziegler: block loop, 2m/m estimate, add_signed_mul update, conditional sub_same_len, `while rem_overflow < 0` loop terminates within 4 rounds, all asserts) with C01's mirrored and proved add_signed_mul (theorems through it need W >= 4)",
-    "div::normalize, div::div_rem_unshifted_in_place (q_top), div::div_rem_in_place (algorithm choice)",
+    "div::normalize, div::div_rem_unshifted_in_place (q_top), div::div_rem_in_place (algorithm choice). Tie A: the length conditions of div::div_rem_in_place (`if`), divide_conquer::div_rem_in_place / same_len / small_quotient (`assert!`s and the `m <= THRESHOLD_SIMPLE` hand-over) are REGENERATED from the kernel sources (vlib/divplumb.py GUARDS -> Gen/DivPlumbing.guard_*) and the model functions are proved to branch exactly on them (div_rem_in_place_choice, bz_entry_guard, bz_same_len_guard, bz_small_quotient_guards, bz_small_quotient_recursive); likewise simple::div_rem_in_place's two `assert!`s and div_rem_highest_word's two decisions `lhs_top < *rhs_top` (3-by-2 estimate vs Word::MAX) and `borrow > lhs_top` (add-back) (simple_entry_guards, hw_estimate_guard, hw_addback_guard), the `rhs == 1` / `is_power_of_two()` / `shift == 0` shortcuts of div_by_word_in_place, rem_by_word, div_by_dword_in_place, rem_by_dword (div_by_word_guards, rem_by_word_dword_guards, div_by_dword_guards) and `lhs_carry > 0` of div_rem_unshifted_in_place (unshifted_carry_guard): 17 regenerated conditions in all",
     "div_ops::repr::{div_rem_in_lhs, div_rem_large, div_large, rem_large, div_rem_dword, div_rem_large_dword, rem_large_dword}",
-    "DivRem / Div / Rem for TypedRepr (all four size-class arms, zero divisor -> panic_divide_by_0)",
+    "DivRem / Div / Rem for TypedRepr / TypedReprRef (all four size-class arms, zero divisor -> panic_divide_by_0): the arms of all 12 impls of div_ops::repr (pattern order, callee per size class, the len() >= len() guard, what an undersized dividend returns incl. the clone_from_slice buffer reuse) are REGENERATED from the macro-expanded source (Gen/DivPlumbing.reprTable) and proved, impl by impl and for all magnitudes, equal to the model's divRemRepr / divRepr / remRepr (repr_every_impl_eq_model)",
     "TypedRepr::add_one; impl_ibig_div, impl_ibig_rem, impl_ibig_divrem, impl_ibig_div_euclid, impl_ibig_rem_euclid, impl_ibig_divrem_euclid, impl_ubig_ibig_rem, impl_ubig_ibig_divrem (model glue = glue regenerated from /repo = Int.tdiv/tmod resp. ediv/emod)",
-    "UBig::is_multiple_of, IBig::is_multiple_of, is_multiple_of_const (non-zero double-word divisor)",
+    "UBig::is_multiple_of, IBig::is_multiple_of, UBig/IBig::is_multiple_of_const = TypedReprRef::is_multiple_of_dword (its own zero test -> the documented divide-by-zero panic, shrink_dword, rem_by_word / rem_by_dword); zero divisor generated and compared",
+    "operator-trait plumbing: every `impl Trait<Rhs> for Lhs` of Div / Rem / DivRem / DivEuclid / RemEuclid / DivRemEuclid / DivAssign / RemAssign / DivRemAssign on UBig / IBig / ConstDivisor in every ownership form (108 impls: helper_macros forward_ubig_binop_to_repr / forward_ibig_binop_to_repr / forward_ubig_ibig / forward_ibig_ubig, impl_binop_assign_by_taking, the hand-written ConstDivisor impls). The table (operand accessors, sign-table macro or wrapper shape, TypedRepr dispatch functions called) is REGENERATED on every run from the macro-expanded crate (vlib/divplumb.py -> Gen/DivPlumbing.lean, registered in vlib/extract.py); the driver runs every op through ALL table entries of its traits; theorem plumbing_every_impl_exact: every entry, run along its route, gives the truncating resp. Euclidean quotient/remainder of the documented result types, or the divide-by-zero panic, for all operands",
+    "ConstDivisor::from_word / from_dword mirrored directly (own zero tests, shrink_dword, ConstSingleDivisor::new / ConstDoubleDivisor::new with their debug_asserts) and proved equal to ConstDivisor::new of the same value (const_from_word_eq_new, const_from_dword_eq_new), zero included",
     "base/src/ring/div_rem.rs impl_div_rem_ops_prim (DivRem, DivRemAssign, DivRemEuclid with its sign fix-up and overflow checks; DivEuclid/RemEuclid forward to std) for every machine integer type: zero divisor and MIN / -1 panic, otherwise tdiv/tmod resp. Euclidean quotient/remainder, all in range",
     "div::memory_requirement_exact / divide_conquer::memory_requirement_exact: sufficient for every scratch allocation of div_rem_in_place, all operand lengths (memory.rs 'not enough memory allocated' unreachable)",
     "num-modular 0.6 Normalized2by1Divisor::{invert_word, div_rem_1by1, div_rem_2by1} and Normalized3by2Divisor::{invert_double_word, div_rem_2by2, div_rem_3by2, div_rem_4by2} (Moeller-Granlund Algorithms 4, 5, 6 with every wrapping operation) = floor division under the crate's preconditions; the division model's contract parameters are discharged (nm_contracts_discharged)",
     "ConstDivisor::new (single/double/large, zero -> divide-by-zero panic), value(); div_rem_small_single, div_rem_small_double, ConstSingleDivisor::{rem_dword, rem_large}, ConstDoubleDivisor::{rem_dword, rem_large}; Div / Rem / DivRem<&ConstDivisor> for TypedRepr, IBig forms",
 ]
 FRONTIER = [
-    "operator-trait plumbing (helper_macros forward_ubig_binop_to_repr / forward_ibig_binop_to_repr / forward_*_ubig_ibig, impl_binop_assign_by_taking, the mem::take / clone wrappers of the ConstDivisor impls): WHICH dispatch function (Div / Rem / DivRem on TypedRepr) each trait method and each of its 4 ownership + 2 assign call forms reaches is written by hand in the driver; tied by the correspondence only (every form is evaluated, a difference prints forms-disagree) - no theorem. (The sign tables those macros expand are Tie A + proved.)",
-    "is_multiple_of_const(0): modelled as an undocumented panic, not generated and not compared (the real panic texts are Rust's `%` by zero resp. a debug_assert, C16's subject)",
-    "ConstDivisor::from_word / from_dword: driven through the model of ConstDivisor::new (same constructor calls in the source); ConstLargeDivisor::rem_large / rem_repr and the Reducer impls belong to C13 and are not modelled here",
-    "primitive.rs / math.rs word helpers (double_word, split_dword, extend_word, shrink_dword, highest_dword, lowest_dword, split_hi_word) are inlined as Nat arithmetic; std intrinsics (leading_zeros, trailing_zeros, is_power_of_two, <<, >>, &, |, checked_div) and, for the primitive kernels, Rust's `/` `%` and std div_euclid / rem_euclid are taken at their documented meaning (see ASSUMPTIONS)",
+    "operator-trait plumbing, what remains outside the theorem: (a) that the macro-expanded listing read by vlib/divplumb.py is what rustc compiles (the expansion is rustc's own -Zunpretty=expanded output; a body outside the recognised shapes becomes Core.other and fails closed) and the meaning given to the recognised shapes by DivPlumbing.evalCore (`UBig(L.div(R))` = divRepr etc.) - tied by the correspondence: the harness evaluates all ownership/assign forms and prints forms-disagree on a difference; (b) by-value vs by-reference operands are the same model value (ownership has no semantic content in the model; buffer reuse is C17's)",
+    "primitive-operand forms of div_ops.rs (impl_binop_with_primitive / impl_div_by_primitive / impl_divrem_with_primitive: UBig|IBig op uN|iN, uN|iN / UBig|IBig, Rem -> primitive) are not driven by C02: each is `big.op(Big::from(prim)).try_into().unwrap()`, i.e. the big-operand form proved here followed by a checked conversion; C15 owns them (drives every such form, Props/C15 primForm theorems say exactly when the conversion succeeds, two findings about them are recorded under C15)",
+    "the size-class arms of `Div / Rem / DivRem<&ConstDivisorRepr> for TypedRepr / TypedReprRef` (div_const.rs mod repr; inline code per arm) are hand-mirrored (divConst / remConst / divRemConst), proved = plain division and compared on every run, but not regenerated (unlike the arms of div_ops::repr)",
+    "ConstLargeDivisor::rem_large / rem_repr and the Reducer impls belong to C13 and are not modelled here",
+    "primitive.rs / math.rs word helpers (double_word, split_dword, extend_word, shrink_dword, highest_dword, lowest_dword, split_hi_word) are inlined as Nat arithmetic; std intrinsics (leading_zeros, trailing_zeros, is_power_of_two, <<, >>, &, |, checked_div) and, for the primitive kernels, Rust's `/` `%` and std div_euclid / rem_euclid are taken at their documented meaning (see ASSUMPTIONS) - no executable Rust-semantics model exists below these, so nothing can carry them further",
     "the allocator side of MemoryAllocation::new (alloc returning null, size > isize::MAX) is C17's; C02 proves only that the requested scratch size suffices",
+    "Burnikel-Ziegler and everything above it is proved for W >= 4 only (C01's multiplication theorems need it); the word / double-word / Knuth-D kernels for W >= 1. dashu supports W in {16, 32, 64}",
 ]
 RULE = ("corpus, then: every form (u/i/ui/iu x div,rem,divrem,diveuclid,remeuclid,divremeuclid,ismultiple; ConstDivisor cdiv,crem,cdivrem,cdivrem2 "
         "for UBig and IBig; is_multiple_of_const; ConstDivisor::value/from_word/from_dword) x {zero divisor with dividends of each representation class; "
@@ -359,7 +453,9 @@ RULE = ("corpus, then: every form (u/i/ui/iu x div,rem,divrem,diveuclid,remeucli
         "(B, B+1, 2B-1, B^2-1, B^2/2, ...) with/without top bit x dividends of 0..70 (thorough: 1025) words; multi-word divisors of sizes {3,4,5,8,16,31,32,33,34,40,47,63..70} "
         "x quotient sizes from the same set (both sides of THRESHOLD_SIMPLE=32 on both lengths) with a = q*b + r, q's top word all ones, r in {0,1,b-1,b/2,random}; "
         "quotient-carry dividends (top n words >= b); estimate-too-large constructions (b = d*B^(n-2) + all-ones low part, a = Q*d*B^(n-2)); dividend top word = divisor top word; "
-        "a<b, a=b, a=0; ConstDivisor one-word divisors with top bit set x two-word dividends around `high word < divisor`; random structured operands}; signs random. "
+        "a<b, a=b, a=0; heap dividends with fewer words than a heap divisor; Burnikel-Ziegler inner boundaries (divisors of 2T-1..2T+2 words, dividends of 2n, 2n+-1, n+T+1, n+T+2, 2n+T, 2n+T+1, 3n words: small_quotient entered with exactly T / T+1 quotient words); ConstDivisor one-word divisors with top bit set x two-word dividends around `high word < divisor`; random structured operands}; signs random. "
+        "is_multiple_of_const(0) on every dividend class; extreme Word / DoubleWord arguments of from_word / from_dword / is_multiple_of_const (0, 1, W-1, W, W+1, 2W, 2^31, 2^32-1, 2^32+k, 2^63+-k, 2^64-1-k, 2^64+k, 2^127+-k, 2^128-1-k for k < 131) as divisors of q*d, q*d+-1; "
+        "divisors of EVERY bit length 1..260 (2^(L-1), 2^L-1, random) with dividends q*b-1, q*b, q*b+r. "
         "Thorough adds 3000-word dividends and Burnikel-Ziegler sizes up to 1500 x 1500 words. Every case runs all ownership/assign call forms in the harness. "
         "Measured reach of the quick tier (Python replay of the branch conditions over the generated cases): Knuth steps 33845 of which estimate=B-1 3970 and add-back 384; "
         "quotient carry 390 (simple) + 48 (B-Z); shift carry > 0 611; normalisation shift = 0 922 / > 0 1970; B-Z 234 cases; power-of-two word divisors 143, double-word 225 "
@@ -367,7 +463,7 @@ RULE = ("corpus, then: every form (u/i/ui/iu x div,rem,divrem,diveuclid,remeucli
         "Non-trivial := some operand >= 3 words; distinct := distinct (op,args) lines.")
 EXPLANATION = ("Theorems (all W >= 1 for the word/double-word/Knuth-D kernels, W >= 4 for everything that can reach Burnikel-Ziegler's multiplication; all lengths): the word-divisor and double-word-divisor loops, the power-of-two shortcuts, Knuth D (estimate, correction, loop, quotient carry), "
                "Burnikel-Ziegler (calling C01's proved multiplication), normalize / unshifted division / remainder shift-back, the four size-class arms of `/`, `%`, div_rem on magnitudes, zero divisor = documented panic in every form, "
-               "is_multiple_of, ConstDivisor (new/value and Div/Rem/DivRem for UBig and IBig) = plain division. The IBig and mixed sign tables executed by the model are proved equal "
+               "is_multiple_of, is_multiple_of_const (zero included), ConstDivisor (new/from_word/from_dword/value and Div/Rem/DivRem for UBig and IBig) = plain division; and, over the table of all 108 operator impls regenerated from the macro-expanded source, that every trait method in every ownership/assign form reaches a route that computes its documented quotient/remainder (plumbing_every_impl_exact). The IBig and mixed sign tables executed by the model are proved equal "
                "to the glue regenerated from /repo's macros (Tie A), whose meaning (Int.tdiv/tmod, Int.ediv/emod) is proved in Props/GenInt. num-modular's dividers (Moeller-Granlund) are mirrored and proved equal to floor division, so no contract parameter remains besides std bit intrinsics.")
 ASSUMPTIONS = [
                "Rust's primitive `/`, `%` (truncating; panic on zero divisor and on MIN / -1 in every profile) and std `div_euclid` / `rem_euclid` at their documented meaning",
@@ -378,11 +474,11 @@ LEVEL_TEXT = ("Machine-checked Lean 4 theorems, for every word size W >= 1 and e
               "loops with their power-of-two shortcuts, Knuth algorithm D with normalisation, top-word correction and quotient carry, the size-class dispatch, the zero-divisor panic "
               "in every form, the truncating and Euclidean sign conventions, is_multiple_of, and ConstDivisor in all three classes) computes exactly a = q*b + r with the documented "
               "conventions; the hand-written model is tied to /repo on every run by differential execution of model and real code over structured operands around every branch condition, "
-              "all call forms, and the sign tables additionally by regeneration from the macro source. The divide-and-conquer algorithm (Burnikel-Ziegler, divisor and quotient both > 32 words) "
+              "all call forms, and the sign tables and the operator-trait plumbing table (which dispatch function / sign table / operand accessor each of the 108 impls uses) additionally by regeneration from the (macro-expanded) source, with a theorem over every regenerated entry; the size-class arms of div_ops::repr and 17 branch / assert conditions of the division kernels are regenerated too, with theorems that the model functions branch exactly on them. The divide-and-conquer algorithm (Burnikel-Ziegler, divisor and quotient both > 32 words) "
               "is refined too; the multiplication it calls is C01's mirrored and proved kernel (those theorems hold for W >= 4).")
 LEVEL_NOTE = ("Trusted: Lean kernel; axioms propext/Classical.choice/Quot.sound; std bit intrinsics (leading_zeros, is_power_of_two, shifts) at their documented meaning; num-modular's dividers are "
               "mirrored (Algorithms 4/5/6) and proved, the mirror being tied to the crate by direct differential calls incl. exhaustive 8-bit sweeps; the correspondence harness and generators (sampling) for the tie "
               "model<->code. Finding recorded and fixed in /repo (commit 2941615): ConstDivisor `%` with a "
               "normalised one-word divisor and an inline dividend whose high word is >= the divisor.")
-TECHNIQUE = "Lean 4 refinement proofs (induction over word lists, all W) + differential correspondence model vs real code + sign tables regenerated from source"
+TECHNIQUE = "Lean 4 refinement proofs (induction over word lists, all W) + differential correspondence model vs real code + sign tables and operator plumbing table regenerated from source"
 READY = True
